@@ -56,6 +56,14 @@ func (c *copier) copy(v reflect.Value) reflect.Value {
 		}
 		return n
 	case reflect.Struct:
+		if skipType(v.Type()) {
+			// sync and sync/atomic values: a bitwise copy. At snapshot time (process start)
+			// they are in their initial state, typically zero: an unlocked mutex, an unused
+			// Once, an empty sync.Map or Pool - restoring that resets them.
+			n := reflect.New(v.Type()).Elem()
+			n.Set(v)
+			return n
+		}
 		if !v.CanAddr() {
 			tmp := reflect.New(v.Type()).Elem()
 			tmp.Set(v)
